@@ -12,6 +12,7 @@ package quadtree
 //@ func (*maxHeap).Push(h, point, distance)
 //@   opt timeout=120
 //@   requires h != nil && len(*h) < cap(*h) && isHeap(*h) && noNaNs(*h) && !isnan(distance)
+//@   modifies *h, (*h)[*]
 //@   ensures len(*h) == old(len(*h)) + 1 && (*h).ref == old((*h).ref) && (*h).off == old((*h).off) && cap(*h) == old(cap(*h))
 //@   ensures isHeap(*h) && noNaNs(*h)
 //@   loop 1: invariant 0 <= i && i < len(*h) && len(*h) == old(len(*h)) + 1 && (*h).ref == old((*h).ref) && (*h).off == old((*h).off) && cap(*h) == old(cap(*h)) && noNaNs(*h)
@@ -22,6 +23,7 @@ package quadtree
 //@ func (*maxHeap).Pop(h)
 //@   opt timeout=120
 //@   requires h != nil && len(*h) >= 1 && isHeap(*h) && noNaNs(*h)
+//@   modifies *h, (*h)[*]
 //@   ensures len(*h) == old(len(*h)) - 1 && (*h).ref == old((*h).ref) && (*h).off == old((*h).off) && cap(*h) == old(cap(*h))
 //@   ensures isHeap(*h) && noNaNs(*h)
 //@   loop 1: invariant 0 <= i && i < len(mh) && len(mh) == old(len(*h)) - 1 && mh.ref == old((*h).ref) && mh.off == old((*h).off) && same(*h, mh) && noNaNs(mh) && !isnan(lastItem.distance)
@@ -30,14 +32,19 @@ package quadtree
 //@   loop 1: invariant forall j :: 1 <= j && j < len(mh) && (j+1)/2 - 1 == i && i >= 1 ==> mh[(i+1)/2 - 1].distance >= mh[j].distance
 
 // ---------------------------------------------------------------- visitors (called by visit.Visit only on nodes holding a value)
+// the state invariant of each visitor, as one predicate over the (closed) visitor interface: it is
+// required and re-established by every Visit, so the generic traversal carries it from the query
+// that builds the visitor to the code that reads the result
+//@ spec nvInv(v *nearestVisitor) bool = v != nil && v.closestBound != nil && v.k >= 1 && len(v.maxHeap) <= v.k && cap(v.maxHeap) == v.k + 1 && isHeap(v.maxHeap) && noNaNs(v.maxHeap)
+//@ spec vinv(x visitor) bool = (istype(x, *nearestVisitor) ==> nvInv(as(x, *nearestVisitor))) && (istype(x, *findVisitor) ==> as(x, *findVisitor) != nil && as(x, *findVisitor).closestBound != nil) && (istype(x, *inBoundVisitor) ==> as(x, *inBoundVisitor) != nil && as(x, *inBoundVisitor).bound != nil)
 
 // the k-nearest visitor keeps at most k items in a heap of capacity k+1: the Push precondition
 // len < cap holds at its only call site, and the heap invariant is maintained
 //@ func (*nearestVisitor).Visit(v, n)
 //@   purefuncs
 //@   requires n != nil && n.Value != nil && v.closestBound != nil
-//@   requires v.k >= 1 && len(v.maxHeap) <= v.k && cap(v.maxHeap) == v.k + 1 && isHeap(v.maxHeap) && noNaNs(v.maxHeap) && !isnan(v.maxDistSquared)
-//@   ensures len(v.maxHeap) <= v.k && cap(v.maxHeap) == v.k + 1 && isHeap(v.maxHeap) && noNaNs(v.maxHeap) && v.k == old(v.k) && v.closestBound == old(v.closestBound) && !isnan(v.maxDistSquared)
+//@   requires v.k >= 1 && len(v.maxHeap) <= v.k && cap(v.maxHeap) == v.k + 1 && isHeap(v.maxHeap) && noNaNs(v.maxHeap)
+//@   ensures len(v.maxHeap) <= v.k && cap(v.maxHeap) == v.k + 1 && isHeap(v.maxHeap) && noNaNs(v.maxHeap) && v.k == old(v.k) && v.closestBound == old(v.closestBound)
 
 //@ func (*findVisitor).Visit(v, n)
 //@   purefuncs
@@ -63,13 +70,13 @@ package quadtree
 // ---------------------------------------------------------------- the traversal
 //@ func (visitor).Bound(v)
 //@   pure
-//@   opt implrequires=assume
+//@   requires vinv(v)
 //@   ensures result != nil
 //@ func (visitor).Point(v)
 //@   pure
 //@ func (visitor).Visit(v, n)
-//@   opt implrequires=assume
-//@   requires n != nil && n.Value != nil
+//@   requires n != nil && n.Value != nil && vinv(v)
+//@   ensures vinv(v)
 
 //@ func (*findVisitor).Bound(v)
 //@   pure
@@ -92,9 +99,10 @@ package quadtree
 
 // visit.Visit is only ever entered on an existing node and recurses only into existing children
 //@ func (*visit).Visit(v, n, left, right, bottom, top)
-//@   requires n != nil && v.visitor != nil
-//@   ensures v.visitor == old(v.visitor)
-//@   loop 1: invariant v.visitor != nil && v.visitor == old(v.visitor)
+//@   opt opaque=vinv
+//@   requires n != nil && v.visitor != nil && vinv(v.visitor)
+//@   ensures v.visitor == old(v.visitor) && vinv(v.visitor)
+//@   loop 1: invariant v.visitor != nil && v.visitor == old(v.visitor) && vinv(v.visitor)
 
 // ---------------------------------------------------------------- C19: queries never write the tree
 // `nowrite`: a static frame obligation — no store/append/copy in the function or anything it can
@@ -112,6 +120,7 @@ package quadtree
 //@   purefuncs
 //@   requires k <= 1073741824
 //@   nowrite P:quadtree.node, P:quadtree.Quadtree
+//@   loop 1: invariant i == len(v.maxHeap) - 1 && i < len(buf) && isHeap(v.maxHeap) && noNaNs(v.maxHeap) && v != nil
 //@ func (*Quadtree).InBound(q, buf, b)
 //@   nowrite P:quadtree.node, P:quadtree.Quadtree
 //@ func (*Quadtree).InBoundMatching(q, buf, b, f)
